@@ -24,7 +24,7 @@ ASSUMPTIONS = [
     "Poisson schedule: monotonicity always; mean inter-arrival within 6 sigma of 1/rate only when >= 2000 draws were observed",
 ]
 REQUIRED_CLAUSES = [
-    "iteration-count", "warmup-flag-iterations", "time-based-stops", "warmup-flag-time", "type-never-back", "progress-monotone-in-range", "progress-ends-at-1",
+    "iteration-count", "finite-source-count", "warmup-flag-iterations", "time-based-stops", "warmup-flag-time", "type-never-back", "progress-monotone-in-range", "progress-ends-at-1",
     "scheduled-monotone", "deterministic-pacing", "ramp-up-delay", "poisson-mean",
 ]
 REQUIRED_FEATURES = {"mode-iter": 20, "mode-time": 20, "ramp-up": 3, "changing-weight-throttled": 3, "straddling-request": 3, "poisson": 5}
@@ -83,6 +83,11 @@ def check(ctx, case, h, exc, problems, feats):
                     ctx.clause("progress-ends-at-1")
                     if samples[-1]["percent"] != 1.0:
                         problems.append(("progress-ends-at-1", f"{where}: last reported progress is {samples[-1]['percent']!r}, not 1", None))
+            # ---------------- the parameter source decides (it runs dry after `finite` requests per client)
+            if spec["mode"] == "finite-source" and not aborted:
+                ctx.clause("finite-source-count")
+                if len(logical) != spec["finite"]:
+                    problems.append(("finite-source-count", f"{where}: executed {len(logical)} requests, its parameter source hands out {spec['finite']}", None))
             # ---------------- time based
             if spec["mode"] == "time":
                 wp, tp = spec["warmup_time_period"], spec["time_period"]
